@@ -86,6 +86,8 @@ def gen_search_patterns(rng, tree, vpattern, pep_ok, count, first_marker, allow_
             shape = "T"
         elif not ini and not is_legacy and rng.random() < 0.05:
             shape = "W"
+        elif rng.random() < 0.06:
+            shape = "S"
         more = []
         extra = {}
         if shape == "A":
@@ -121,10 +123,13 @@ def gen_search_patterns(rng, tree, vpattern, pep_ok, count, first_marker, allow_
             # blanks at both ends are pattern text in TOML (INI cannot say this): "lib@k3 w 1.2.3;" is not an occurrence
             prefix, region, suffix = " %s w " % m, "{version}", " "
             extra = {"decoy": "lib%s w " % m}
+        elif shape == "S":
+            # the version inside a file name: word characters right after it, also when its optional parts are left out
+            prefix, region, suffix = m + " pkg_", "{version}", rng.choice(["_all.deb", "rev", "_x", "x"])
         elif shape == "G":
             # literal text with characters that must be matched literally
             lit = rng.choice(["(c)", "v.", "a+b", "what?", "x*", "f(x)", "\\[tag\\]", "<->", "::", "100%", "%(name)s", "sem%20ver", "%%",
-                              "{0}", "({0})", "{1,3}", "a{2}", "{}", "{name}"])
+                              "{0}", "({0})", "{1,3}", "a{2}", "{}", "{name}", "a, b", "(x, y),"])
             prefix, region, suffix = "%s %s " % (m, lit), "{version}", rng.choice(["", " " + lit])
         else:
             if not names:
